@@ -135,6 +135,12 @@ def edit_and_recheck(sh, doc, rng, seed, parts):
             A.name = A.name + '_rn'
             T.name = A.name
             n += 1
+        if rng.random() < 0.15 and not any(c_.inline_refs for c_ in A.columns) and \
+                not any(r_.inline and (T is r_.table1 or T is r_.table2) for r_ in db.refs):
+            # the `abstract` flag only concerns inline foreign keys; a table without any is stated exactly as before
+            T.abstract = True
+            n += 1
+            sh.count('obs.tables_flagged_abstract')
     if n:
         sh.count('obs.edits_before_second_render', n)
         check_sql(sh, d2, db, 'api', 'edited', parts)
